@@ -5,6 +5,8 @@ use uom::si::f64 as q64;
 use uom::si::f32 as q32;
 use uom::si::length::{kilometer, meter, millimeter};
 use uom::si::thermodynamic_temperature::degree_celsius;
+use uom::si::time::second;
+use uom::typenum::P2;
 mod kmb {
     ISQ!(uom::si, f64, (kilometer, kilogram, second, ampere, kelvin, mole, candela));
 }
@@ -46,3 +48,39 @@ mod kmb {
 #[no_mangle] pub fn b_add32(a: f32, b: f32) -> f32 { a + b }
 #[no_mangle] pub fn q_new_km32(a: f32) -> q32::Length { q32::Length::new::<kilometer>(a) }
 #[no_mangle] pub fn b_new_km32(a: f32) -> f32 { a * 1.0E3 }
+#[no_mangle] pub fn q_rem(a: q64::Length, b: q64::Length) -> q64::Length { a % b }
+#[no_mangle] pub fn b_rem(a: f64, b: f64) -> f64 { a % b }
+#[no_mangle] pub fn q_add_assign(a: &mut q64::Length, b: q64::Length) { *a += b }
+#[no_mangle] pub fn b_add_assign(a: &mut f64, b: f64) { *a += b }
+#[no_mangle] pub fn q_sub_assign(a: &mut q64::Length, b: q64::Length) { *a -= b }
+#[no_mangle] pub fn b_sub_assign(a: &mut f64, b: f64) { *a -= b }
+#[no_mangle] pub fn q_scale(a: q64::Length, k: f64) -> q64::Length { a * k }
+#[no_mangle] pub fn b_scale(a: f64, k: f64) -> f64 { a * k }
+#[no_mangle] pub fn q_scale_left(k: f64, a: q64::Length) -> q64::Length { k * a }
+#[no_mangle] pub fn b_scale_left(k: f64, a: f64) -> f64 { k * a }
+#[no_mangle] pub fn q_unscale(a: q64::Length, k: f64) -> q64::Length { a / k }
+#[no_mangle] pub fn b_unscale(a: f64, k: f64) -> f64 { a / k }
+#[no_mangle] pub fn q_abs(a: q64::Length) -> q64::Length { a.abs() }
+#[no_mangle] pub fn b_abs(a: f64) -> f64 { a.abs() }
+#[no_mangle] pub fn q_recip(a: q64::Time) -> q64::Frequency { a.recip() }
+#[no_mangle] pub fn b_recip(a: f64) -> f64 { a.recip() }
+#[no_mangle] pub fn q_max(a: q64::Length, b: q64::Length) -> q64::Length { a.max(b) }
+#[no_mangle] pub fn b_max(a: f64, b: f64) -> f64 { a.max(b) }
+#[no_mangle] pub fn q_sqrt(a: q64::Area) -> q64::Length { a.sqrt() }
+#[no_mangle] pub fn b_sqrt(a: f64) -> f64 { a.sqrt() }
+#[no_mangle] pub fn q_powi2(a: q64::Length) -> q64::Area { a.powi(P2::new()) }
+#[no_mangle] pub fn b_powi2(a: f64) -> f64 { a.powi(2) }
+#[no_mangle] pub fn q_floor_m(a: q64::Length) -> q64::Length { a.floor::<meter>() }
+#[no_mangle] pub fn b_floor_m(a: f64) -> f64 { a.floor() }
+#[no_mangle] pub fn q_is_nan(a: q64::Length) -> bool { a.is_nan() }
+#[no_mangle] pub fn b_is_nan(a: f64) -> bool { a.is_nan() }
+#[no_mangle] pub fn q_le(a: q64::Length, b: q64::Length) -> bool { a <= b }
+#[no_mangle] pub fn b_le(a: f64, b: f64) -> bool { a <= b }
+#[no_mangle] pub fn q_mul_add(x: q64::Length, a: q64::Length, b: q64::Area) -> q64::Area { x.mul_add(a, b) }
+#[no_mangle] pub fn b_mul_add(x: f64, a: f64, b: f64) -> f64 { x.mul_add(a, b) }
+#[no_mangle] pub fn q_get_s(a: q64::Time) -> f64 { a.get::<second>() }
+#[no_mangle] pub fn b_get_s(a: f64) -> f64 { a }
+#[no_mangle] pub fn q_clone(a: &q64::Length) -> q64::Length { a.clone() }
+#[no_mangle] pub fn b_clone(a: &f64) -> f64 { a.clone() }
+#[no_mangle] pub fn q_sum3(a: q64::Length, b: q64::Length, c: q64::Length) -> q64::Length { [a, b, c].iter().copied().sum() }
+#[no_mangle] pub fn b_sum3(a: f64, b: f64, c: f64) -> f64 { [a, b, c].iter().copied().sum() }
